@@ -134,6 +134,19 @@ def run(prog, rep, tier):
                     r1.ok(desc + ": peer without GR is removed from pending")
                 else:
                     r1.fail(fv.name, "nogr-peer:" + key, "a peer established without GR families is not removed from pending: it would block completion", fv.loc(a.block))
+    # (vii') ... in every deferring state: a peer that comes back without GR leaves `pending` (sibling agreement of the arms)
+    covered = set()
+    for a in arms:
+        if a.cond(r"input") == frozenset({"PeerEstablished"}):
+            emp = [l for g, l in a.raw_conds if g[0] == "call" and g[1].endswith("::is_empty") and "families" in expr_vars(g)]
+            if emp and emp[0] == {"true"} and any(c.endswith("RestartingDeferral::remove_peer") for c in a.calls):
+                covered |= set(a.cond(r"state") or ())
+    for st_ in sorted(DEFERRING):
+        if st_ in covered:
+            r1.ok("%s + PeerEstablished(no GR families): peer removed from pending" % st_)
+        else:
+            r1.fail(fv.name, "nogr-peer-arm-missing:" + st_, "in state %s a peer established without GR families is not taken out of `pending` (the sibling state does it): "
+                    "its empty entry keeps `pending` non-empty for ever, so EndDeferral is never emitted" % st_, fv.loc())
     if not any((a.cond(r"input") == frozenset({"TimerExpired"})) for a in arms):
         r1.fail(fv.name, "no-timer-arm", "RestartingDeferral::process has no TimerExpired arm", fv.loc())
     if n_timer == 0:
